@@ -1,5 +1,5 @@
 """C09 — string types always hold valid UTF-8 (claimed narrowly: boundary checks, validated reinterpretation, NUL handling)."""
-import re
+import collections, re
 from ..ir import show, phi_alts, walk_expr, expr_mentions, Site, RET, UNW
 from .common import *
 from . import c06
@@ -260,6 +260,54 @@ def r4_cstr(ctx, P):
     ctx.floor(R, "C-string constructors", n, 3 if "nodefault" in (ctx.config or "") else 4)
 
 
+DECODERS = re.compile(r"from_utf8_lossy|from_utf16")
+
+
+def r6_decoder_siblings(ctx, P):
+    R = "C09.R6"
+    ctx.rule(R, "the decoding constructors (from_utf8_lossy*, from_utf16*) of BumpString and MutBumpString are sibling "
+                "implementations of one algorithm: same multiset of callees, and each push is control dependent on the "
+                "same decoder queries (valid/invalid/is_empty) in both")
+    fam = {}
+    for b in P.fn_bodies():
+        outer = P.outermost_fn(b.item)
+        if outer["id"] != b.item["id"] or not DECODERS.search(b.item["name"]):
+            continue
+        impl = P.impl_of_item.get(b.item["id"])
+        if not impl or impl.get("trait"):
+            continue
+        for pre, k in (("bump_string::BumpString<", "BumpString"), ("mut_bump_string::MutBumpString<", "MutBumpString")):
+            if impl["self_ty"].startswith(pre):
+                fam.setdefault(b.item["name"], {})[k] = b
+
+    def skeleton(b):
+        c = collections.Counter()
+        te, fe = b.cond_edges(lambda e: True if (e[0] == "call" and e[1].split("::")[-1] == "is_empty") else None)
+        for s_, t in b.calls():
+            f = t["f"]
+            if "name" not in f:
+                continue
+            tag = f["name"]
+            if "push" in tag:
+                dep = "if-empty" if b.controlled_by(s_, te, cleanup=False) else "if-nonempty" if b.controlled_by(s_, fe, cleanup=False) else "always"
+                loop = "loop" if b.can_reach(s_, s_, cleanup=False) else "once"
+                tag = f"{tag}[{dep},{loop}]"
+            c[tag] += 1
+        return c
+    n = 0
+    for name, d in sorted(fam.items()):
+        if len(d) < 2:
+            continue
+        n += 1
+        a, m = skeleton(d["BumpString"]), skeleton(d["MutBumpString"])
+        ok = a == m
+        ctx.inst(R, name, ok, f"both siblings: {sum(a.values())} calls, identical skeleton" if ok else
+                 f"BumpString::{name} and MutBumpString::{name} differ: only in BumpString {dict(a - m)}, only in MutBumpString "
+                 f"{dict(m - a)}: the two decoders no longer produce the same text for the same bytes",
+                 where=d["MutBumpString"].where(), site="decoder siblings agree")
+    ctx.floor(R, "decoder sibling pairs", n, 2)
+
+
 from . import stale
 
 
@@ -271,5 +319,6 @@ def run(ctx, progs):
         r2_validated(ctx, P)
         r3_guards(ctx, P)
         r4_cstr(ctx, P)
+        r6_decoder_siblings(ctx, P)
         stale.rule(ctx, P, "C09.R5", ("bump_string::BumpString<", "mut_bump_string::MutBumpString<"), 6, 8)
     ctx.config = None
